@@ -9,6 +9,7 @@
     diagnorm {ord, d[, square]} | {ord, re, im} -> value | err value|shape   Diagonal.norm (real / complex diagonal)
     sidnorm  {ord, ac, N}              -> value | err value        ScaledIdentity.norm
     matnorm  {ord, rows}               -> value | null             entrywise matrix norms (spec of the closed forms)
+    svnorm   {ord, s}                  -> value | null             norms computed from the singular values s (ord 2, -2, nuc)
   ord is a string "none|fro|nuc|inf|-inf|other" or an integer.
 -/
 import Scico.Common.Wire
@@ -96,6 +97,12 @@ def handler : Handler := fun op j =>
     let n := (rows.headD []).length
     let cols := (List.range n).map (fun c => ar.map (fun r => r.getD c 0))
     match matNorm o ar cols with
+    | some v => some (ok (jF v))
+    | none => some (ok Json.null)
+  | "svnorm" => do
+    let o ← ord? j
+    let sv ← fFloats? j "s"
+    match svNorm o sv with
     | some v => some (ok (jF v))
     | none => some (ok Json.null)
   | _ => none
